@@ -26,6 +26,36 @@ HISTORY_R2 = {
 }
 
 
+HISTORY_R3 = {
+    "C02-r3m1": "missed at first (no refinement with TWO dependencies) -> new model constructor `depIntRangeSpan` (Dependent(\"w,lo\", ...) named in the opposite order of the fields) through Synth / Tree / WellTyped / Depth lemmas, used in the C02 sibling grammar",
+    "C02-r3m2": "missed at first -> C02 runs the retargeted-annotation scenario too",
+    "C03-r3m2": "missed at first (recursion limits in the hundreds were declared out of range) -> a fresh-interpreter worker creates under limits 150 / 320 (450) on frame-heavy chain grammars with every decider",
+    "C04-r3m1": "missed at first -> C04 compares the first 120 decision sequences of every tree draw by draw with the model (range-sensitive scripts) and has a list-of-union recursion grammar; reported as a broken correspondence (no failing input)",
+    "C04-r3m2": "missed at first -> retargeted grammar in C04",
+    "C05-r3m2": "missed at first (each grammar was observed right after its own extraction) -> other grammars are extracted over the same classes (usable_grammar, other depth mode, subset) and the first one is observed again",
+    "C06-r3m1": "missed at first -> crossover chains on concrete single-field start symbols that recur through single-child nodes (Block/Loop, Prog/Call)",
+    "C07-r3m2": "missed at first -> a module-level grammar with a persistent WeightedStringHandler (numpy matrix), each genotype mapped three times; C18 also hands ONE weights list to several choice_weighted calls",
+    "C08-r3m1": "missed at first -> searches on `usable_grammar()` in the cross-process battery",
+    "C09-r3m1": "missed at first (a `map` step refreshed every snapshot) -> every live genotype is verified after each map / evaluate; dSGE sharing histories on a many-symbol grammar",
+    "C09-r3m2": "missed at first -> NaN objectives in the lexicase populations",
+    "C10-r3m2": "missed at first -> other grammars extracted over the same classes are guarded operations of the history",
+    "C11-r3m1": "missed at first -> `ListSizeBetweenWithoutListOperations` in the generator and the C11 corpus",
+    "C12-r3m1": "missed at first (masked by the open finding's key) -> the key now also distinguishes members of a generation that never reached the tracker",
+    "C12-r3m2": "missed at first -> histories whose individuals were scored on another problem before",
+    "C13-r3m1": "missed at first -> batches of 17..26 distinct individuals on the parallel evaluator",
+    "C13-r3m2": "missed at first -> multi-objective fitness functions that fill and return one preallocated list",
+    "C14-r3m1": "missed at first -> the budget SimpleGP builds is spied on for targets 0, 0.0, 40, -3.5, None",
+    "C15-r3m1": "missed at first -> steps driven by the ParallelEvaluator on populations holding the same object twice",
+    "C15-r3m2": "missed at first -> populations with NaN fitness (count only); exposed a genuine lexicase crash (fix 21ea529)",
+    "C16-r3m1": "missed at first -> a multi-objective problem with ONE minimised objective and the default aggregate, direction predicate",
+    "C16-r3m2": "missed at first -> 2..n/10 elites out of 20..60 individuals with ties",
+    "C18-r3m1": "missed at first -> normalvariate / random_float in the same-genes stream comparison",
+    "C18-r3m2": "reported at first only as a broken correspondence -> the special odd widths (1999, 1023, 1457, ...) with ALL (n, e, sign) draws give the out-of-bounds input",
+    "C19-r3m1": "missed at first -> `@abstract` applied above `@weight` for half of the weighted abstract classes",
+    "C20-r3m1": "missed at first -> first registered fitness inf / -inf / NaN under the real tracker with a best-only log",
+}
+
+
 def main():
     old = (VERIF / "seeded/INDEX.md").read_text() if (VERIF / "seeded/INDEX.md").exists() else ""
     hist = {}
@@ -34,6 +64,7 @@ def main():
         if m:
             hist[m.group(1)] = m.group(2).strip()
     hist.update(HISTORY_R2)
+    hist.update(HISTORY_R3)
     rows, caught = [], 0
     dirs = sorted(p for p in (VERIF / "seeded").iterdir() if p.is_dir())
     for d in dirs:
@@ -46,14 +77,17 @@ def main():
         caught += ok
         rows.append(f"| {d.name} | {prop} | {what} | {'yes' if ok else 'NO'} | {chk.get('first', '')[:150].replace('|', '/')} | {hist.get(d.name, FIRST)} |")
     n = len(dirs)
-    r1 = sum(1 for d in dirs if "-r2" not in d.name)
+    r1 = sum(1 for d in dirs if "-r2" not in d.name and "-r3" not in d.name)
+    r2 = sum(1 for d in dirs if "-r2" in d.name)
     out = f"""# Seeded changes (by fresh sub-agents that saw only one property's text)
 
 Each directory holds `patch.diff` (apply with `git apply` in a checkout of /repo), `demo.py` (exit 0 / PASS on the unchanged library,
 exit 1 / FAIL with the change; `PYTHONPATH=<checkout> /venv/bin/python demo.py`), the author's `notes.md` and `meta.json` (what it needs to manifest,
 what was run, which checks catch it).  None of these changes is ever applied to /repo; `harness/tools/seed_eval.py` / `mutant_run.sh` run the checks
 against scratch copies (`VERIF_REPO`).  All {n} changes keep the repository's fast test subset green (the authors also ran the slow parts touching their files).
-Round 1: {r1} changes (`Cxx-mK`); round 2: {n - r1} changes (`Cxx-r2mK`), whose authors were asked to look beyond the obvious function.
+Round 1: {r1} changes (`Cxx-mK`); round 2: {r2} changes (`Cxx-r2mK`), whose authors were asked to look beyond the obvious function;
+round 3: {n - r1 - r2} changes (`Cxx-r3mK`), whose authors were told that a randomised differential test on small inputs exists and asked for
+rarely used library features, narrow triggers and state carried between calls.
 
 **{caught} of {n} are detected by the quick check of the property they break** (the `history` column says which were missed on their first evaluation and what was strengthened).
 
